@@ -89,12 +89,16 @@ class DepSet(boolean.AndRestriction, caching=False):
                     if not depsets[-1] or not raw_conditionals:
                         raise DepsetParseError(dep_str, attr=attr)
                     elif raw_conditionals[-1] in operators:
-                        if len(depsets[-1]) == 1:
+                        op_cls = operators[raw_conditionals[-1]]
+                        # a group of one means its member, unless the
+                        # operator says otherwise (?? ( a ) holds whether
+                        # or not a does)
+                        if len(depsets[-1]) == 1 and getattr(
+                            op_cls, "_evaluate_single_is_member", True
+                        ):
                             depsets[-2].append(depsets[-1][0])
                         else:
-                            depsets[-2].append(
-                                operators[raw_conditionals[-1]](*depsets[-1])
-                            )
+                            depsets[-2].append(op_cls(*depsets[-1]))
                     else:
                         node_conds = True
                         c = raw_conditionals[-1]
